@@ -256,6 +256,92 @@ def segtest_on(fb, fn, e, cur, p=None):
     return False
 
 
+def rule_segment_ends_walk(res, rid, m):
+    """A segment is the last message of its frame (the rest of the frame, if any, is padding): every
+    path of the message loop that handled a segment leaves the loop.  If the walk went on, padding
+    after a first/intermediary segment would be parsed as a message, fail validation and take the
+    invalid-message path, which erases the entry that was just opened or extended."""
+    n = 0
+    for p in m.body_paths():
+        cls = classify(p)
+        if cls in ("first-segment", "continuation-open", "continuation-completes", "continuation-rejected"):
+            n += 1
+            res.check(p.end_block == m.loop_exit or p.end == "exit", rid, "segment-ends-walk:%s" % cls, m.loop_stmt.get("loc"),
+                      "the walk over the frame ends after a %s" % cls.replace("-", " "),
+                      "after a %s the message loop continues with the bytes that follow the segment: frame padding is then parsed as a message and "
+                      "its rejection erases this endpoint's pending entry" % cls.replace("-", " "))
+    return n
+
+
+def rule_segment_plumbing(res, rid, m):
+    """What the reassembly entry stores and compares is the frame's own header value, at full width:
+    each of (version, message type, sequence counter) reaches the first-segment constructor and
+    addSegment from the matching CmpHeader getter unchanged, through a parameter at least as wide as
+    the getter's result, and the constructor stores the parameter in a member of that width."""
+    fb = m.fb
+    role = getattr(m, "roles", None)
+    if role is None:
+        raise Broken("rule_accept_guard must run first")
+    want = {"version": HDR + "::getVersion", "message type": HDR + "::getMessageType", "counter": HDR + "::getSequenceCounter"}
+    n = 0
+    for what, getter in want.items():
+        g = fb.fn(getter)
+        gw = (g.raw.get("rett") or {}).get("bits")
+        fld = role.get(what)
+        if fld is None or gw is None:
+            raise Broken("segment plumbing: cannot bind %s" % what)
+        frec = [f for f in fb.record(SEG)["fields"] if f["qname"] == fld][0]
+        res.check(frec["t"].get("bits", 0) >= gw, rid, "stored-width:%s" % what, frec.get("loc"), "member holds all %d bits of %s" % (gw, getter.split("::")[-1]),
+                  "the stored %s has %s bits, the header field has %d" % (what, frec["t"].get("bits"), gw))
+        n += 1
+        # the constructor parameter that initialises the member
+        pidx = None
+        for i in m.ctor.raw.get("inits", []) or []:
+            if i.get("field") == fld and isinstance(i.get("e"), dict):
+                src = strip_all_casts(i["e"])
+                while src.get("k") in ("construct", "initlist") and len(src.get("args", src.get("inits", []))) == 1:
+                    src = strip_all_casts((src.get("args") or src.get("inits"))[0])
+                if src.get("dk") == "param":
+                    pidx = [p["decl"] for p in m.ctor.params].index(src["decl"])
+        if pidx is None:
+            for d, kind, x in writes_of(m.ctor):
+                if d == fld and kind == "assign" and strip_all_casts(x["r"]).get("dk") == "param":
+                    pidx = [p["decl"] for p in m.ctor.params].index(strip_all_casts(x["r"])["decl"])
+        res.check(pidx is not None, rid, "ctor-stores:%s" % what, m.ctor.loc, "first-segment constructor stores its %s parameter unchanged" % what,
+                  "the first-segment constructor does not store a parameter in the %s member unchanged" % what)
+        n += 1
+        for fn, idx in ((m.ctor, pidx), (m.addSegment, None)):
+            if fn is m.addSegment:
+                # the parameter compared with the stored member on the accepting path
+                idx = None
+                for i, prm in enumerate(fn.params):
+                    for x in fn.nodes():
+                        if x.get("k") == "bin" and x.get("op") in ("==", "!="):
+                            rd = reads(x)
+                            if prm["decl"] in rd and fld in rd:
+                                idx = i
+            if idx is None:
+                res.bad(rid, "%s-param:%s" % (fn.name.split("::")[-1], what), fn.loc, "%s has no parameter that carries the frame's %s" % (fn.name, what))
+                continue
+            prm = fn.params[idx]
+            pw = prm["t"].get("bits") or 0
+            res.check(pw >= gw, rid, "%s-param-width:%s" % (fn.name.split("::")[-1], what), fn.loc,
+                      "parameter `%s` has %d bits >= %d" % (prm.get("name"), pw, gw),
+                      "parameter `%s` of %s has %d bits but the frame's %s has %d: the stored/compared value is truncated (messages whose %s does not fit are "
+                      "dropped or mis-joined)" % (prm.get("name"), fn.name, pw, what, gw, what))
+            n += 1
+            for c in m.decode.nodes():
+                if c.get("k") in ("call", "construct") and fb.resolve_call(c) is fn:
+                    args = facts.effective_call(c).get("args", [])
+                    if idx < len(args):
+                        ok = facts.flows_unchanged(m.decode, args[idx], getter) and "p0:data" in depends(m.decode, args[idx])[0]
+                        res.check(ok, rid, "%s-arg:%s@%s" % (fn.name.split("::")[-1], what, (c.get("loc") or "").split(":", 1)[-1]), c.get("loc"),
+                                  "%s of this frame's header passed unchanged" % getter.split("::")[-1],
+                                  "the %s given to %s is not this frame's %s unchanged" % (what, fn.name.split("::")[-1], getter))
+                        n += 1
+    return n
+
+
 def rule_segtype_subject(res, rid, m):
     """Every test of a segment type inside the message loop reads the header of the message the
     validator accepted (the cursor), not some other position of the datagram."""
